@@ -26,7 +26,8 @@ Definition exn_eqb (a b : exn) : bool :=
 (* equality of outputs as far as the harness can observe them: the origin tag of a close frame is a ghost *)
 Definition oev_eqb (a b : oev) : bool :=
   match a, b with
-  | WHttp, WHttp | WData, WData | WPong, WPong | Lose, Lose | Abort, Abort
+  | WPayload x, WPayload y => x =? y
+  | WHttp, WHttp | WData, WData | WHdr, WHdr | WPong, WPong | Lose, Lose | Abort, Abort
   | CbOpen, CbOpen | CbMessage, CbMessage | CbPing, CbPing | CbPong, CbPong | IsOpen, IsOpen | IsClosed, IsClosed => true
   | WPing x, WPing y => opt_eqb N.eqb x y
   | WClose _ c r, WClose _ c' r' => opt_eqb N.eqb c c' && opt_eqb (list_eqb N.eqb) r r'
@@ -45,10 +46,16 @@ Definition applicable (s : cstate) (e : event) : bool :=
   match e with
   | EHandshake | EBadHandshake => connecting s
   | EProxyOk | EProxyBad => proxy_connecting s
-  | ESendClose _ _ | ESendMessage | ESendPing | ESendPong | ETick _ => true
+  | ESendClose _ _ | ESendMessage | ESendPing | ESendPong | EBeginMessage | ESendFrame | EEndMessage | ETick _ => true
   | EPeerDrop _ => negb (gone s)
   | EOwnDrop => negb (gone s) && droppedByMe s
-  | _ => negb (gone s) && negb (wstate_eqb (st s) CONNECTING)
+  (* frames are read in OPEN/CLOSING; in CLOSED (transport not yet gone) octets are still delivered and ignored *)
+  | EPeerData | EPeerInvalid _ =>
+      negb (gone s) && negb (wstate_eqb (st s) CONNECTING) && (if frames_flow s then negb (rxPartial s) && negb (inMsg s) else true)
+  | EPeerHead => msg_start s
+  | EPeerFrag cont _ => frames_ready s && Bool.eqb cont (inMsg s)
+  | EPeerTail => frames_flow s && rxPartial s
+  | _ => negb (gone s) && negb (wstate_eqb (st s) CONNECTING) && (if frames_flow s then negb (rxPartial s) else true)
   end.
 
 Record obs := mkObs {
@@ -57,7 +64,7 @@ Record obs := mkObs {
   o_isopen : N; o_isclosed : N;     (* number of is_open / is_closed resolutions in this step *)
   o_state : wstate; o_now : N;
   o_timers : list N;                (* absolute times of the pending reactor calls, ascending *)
-  o_flags : list bool;              (* closedByMe failedByMe droppedByMe wasClean wasOpenTO wasCloseTO wasDropTO pingPending proxyPending *)
+  o_flags : list bool;              (* closedByMe failedByMe droppedByMe wasClean wasOpenTO wasCloseTO wasDropTO pingPending proxyPending inMsg rxPartial sendstate<>GROUND sendstate=INSIDE_MESSAGE *)
   o_ncr : nreason;
   o_localCode : option N; o_remoteCode : option N;
   o_pingSeq : N
@@ -73,7 +80,9 @@ Definition observe (applied : bool) (s : cstate) (o : list out) : obs :=
         (N.of_nat (length (filter is_isclosed o)))
         (st s) (now s) (sort_times (map te_time (timers s)))
         [closedByMe s; failedByMe s; droppedByMe s; wasClean s; wasOpenTO s; wasCloseTO s; wasDropTO s;
-         isSome (pingPending s); proxyPending s && wstate_eqb (st s) CONNECTING]
+         isSome (pingPending s); proxyPending s && wstate_eqb (st s) CONNECTING;
+         inMsg s && negb (wstate_eqb (st s) CLOSED); rxPartial s && negb (wstate_eqb (st s) CLOSED);
+         match sst s with SGround => false | _ => true end; match sst s with SInside => true | _ => false end]
         (ncr s) (localCode s) (remoteCode s) (pingSeq s).
 
 Definition obs_eqb (a b : obs) : bool :=
